@@ -14,7 +14,6 @@ from types import (
     ModuleType,
     SimpleNamespace,
 )
-from weakref import WeakKeyDictionary
 
 from .doc import (
     always_break,
@@ -1137,28 +1136,17 @@ def resolve_cnamedtuple_fieldnames(value):
     )
 
 
-# Keys: classes/constructors
-# Values: a tuple of fieldnames is resolving them was successful.
-#         Otherwise, an exception that was raised when attempting
-#         to resolve the fieldnames.
-_cnamedtuple_fieldnames_by_class = WeakKeyDictionary()
-
-
 # Examples of cnamedtuples:
 # - return value of time.strptime()
 # - return value of os.uname()
 def pretty_cnamedtuple(value, ctx, trailing_comment=None):
     cls = type(value)
-    if cls not in _cnamedtuple_fieldnames_by_class:
-        try:
-            fieldnames = resolve_cnamedtuple_fieldnames(value)
-        except Exception as exc:
-            fieldnames = exc
-        _cnamedtuple_fieldnames_by_class[cls] = fieldnames
-
-    fieldnames = _cnamedtuple_fieldnames_by_class[cls]
-    if isinstance(fieldnames, Exception):
-        raise fieldnames
+    # Resolved from this very value every time: a per-class cache made the
+    # output depend on which instance of the class happened to be printed
+    # first (one instance whose repr cannot be parsed disabled the field
+    # names for every later instance, or got them only after another one).
+    # Raises if the repr can't be parsed; the caller then renders a plain tuple.
+    fieldnames = resolve_cnamedtuple_fieldnames(value)
 
     return pretty_call_alt(
         ctx,
